@@ -454,7 +454,7 @@ static void int_rec( const char* rule, int bits, int sgn, const std::string& max
 }
 
 template< typename Rule >
-static void int_syntax( const char* name, const std::string& w )
+static void int_syntax( const char* name, const std::string& w, const std::string& maxs = std::string() )
 {
    Blk b( w );
    memory_input<> in( b.p, b.p + b.n, "src" );
@@ -467,7 +467,7 @@ static void int_syntax( const char* name, const std::string& w )
       res = 2;
       msg = std::string( e.message() );
    }
-   int_rec( name, 0, 0, "", w, res, in.current() - b.p, "", msg );
+   int_rec( name, 0, 0, maxs, w, res, in.current() - b.p, "", msg );
 }
 
 template< typename Rule, typename T >
@@ -537,7 +537,7 @@ static void int_unsigned_type( const std::string& w )
 {
    int_store< unsigned_rule_with_action, U >( "unsigned_rule_with_action", maxdec< U >(), w );
    int_action< unsigned_rule, ua, U >( "unsigned_action", maxdec< U >(), w );
-   int_syntax< maximum_rule< U > >( ( std::string( "maximum_rule:" ) + maxdec< U >() ).c_str(), w );
+   int_syntax< maximum_rule< U > >( "maximum_rule", w, maxdec< U >() );
    int_store< maximum_rule_with_action< U >, U >( "maximum_rule_with_action", maxdec< U >(), w );
 }
 template< typename S >
@@ -550,7 +550,7 @@ static void int_signed_type( const std::string& w )
 template< typename U, U Max >
 static void int_max( const std::string& w )
 {
-   int_syntax< maximum_rule< U, Max > >( ( std::string( "maximum_rule:" ) + dec( Max ) ).c_str(), w );
+   int_syntax< maximum_rule< U, Max > >( "maximum_rule", w, dec( Max ) );
    int_store< maximum_rule_with_action< U, Max >, U >( "maximum_rule_with_action", dec( Max ), w );
 }
 
